@@ -28,7 +28,30 @@ theorem dropAll_book : ∀ (l : List (Nat × Option RState)) (st : St), Book st 
     simp only [dropAll, List.foldl_cons]
     exact (dropEff_book st eh.1 eh.2).trans (dropAll_book rest _)
 
-theorem dropState_book (st : St) (t : RState) : Book st (dropState st t) := dropAll_book _ _
+theorem killAll_book (st : St) : ∀ (l : List Nat), Book st (killAll st l)
+  | [] => Book.refl st
+  | _ :: _ => Book.of_eq rfl rfl
+
+theorem dropState_book (st : St) (t : RState) : Book st (dropState st t) :=
+  (killAll_book st _).trans (dropAll_book _ _)
+
+theorem newLocal_book (st : St) (sid : Nat) : ∀ (d : LDef), Book st (newLocal st sid d).2
+  | .memo _ => Book.of_eq rfl rfl
+  | .sig _ => Book.of_eq rfl rfl
+
+theorem foldl_book {α β : Type} (f : β × St → α → β × St) (h : ∀ acc a, Book acc.2 (f acc a).2) :
+    ∀ (l : List α) (acc : β × St), Book acc.2 (l.foldl f acc).2
+  | [], acc => Book.refl _
+  | a :: l, acc => by
+    simp only [List.foldl_cons]
+    exact (h acc a).trans (foldl_book f h l _)
+
+theorem foldl_book' {α : Type} (f : St → α → St) (h : ∀ st a, Book st (f st a)) :
+    ∀ (l : List α) (st : St), Book st (l.foldl f st)
+  | [], st => Book.refl _
+  | a :: l, st => by
+    simp only [List.foldl_cons]
+    exact (h st a).trans (foldl_book' f h l _)
 
 theorem buildAttr_book (st : St) : ∀ (a : Attr), Book st (buildAttr st a).2.1
   | .stat _ _ => Book.refl st
@@ -42,6 +65,56 @@ theorem buildAttrs_book : ∀ (as : List Attr) (st : St), Book st (buildAttrs as
 
 theorem buildFor_book (st : St) (keys : List Nat) : Book st (buildFor st keys).2.2 := Book.of_eq rfl rfl
 
+/-! equation lemmas in projection form -/
+
+theorem build_scope (sid : Nat) (d : LDef) (kid : View) (st : St) :
+    build (.scope sid d kid) st =
+      (.scope (newLocal st sid d).1 sid d.isSig
+          (build kid { (newLocal st sid d).2 with locals := (newLocal st sid d).1 :: (newLocal st sid d).2.locals }).1,
+       { (build kid { (newLocal st sid d).2 with
+            locals := (newLocal st sid d).1 :: (newLocal st sid d).2.locals }).2 with
+          locals := (newLocal st sid d).2.locals }) := rfl
+
+/-- the keyed state a `<For>` with rows of their own starts from -/
+def rowsKs (st : St) (sel : Expr) (lists : List (List Nat)) : Keyed.KState :=
+  (Keyed.build 1 (listAt lists (newEff st (st.res sel)).2.1) [] (newEff st (st.res sel)).2.2.next).mount none
+
+/-- … and the fold that builds its rows -/
+def rowsFold (st : St) (sel : Expr) (lists : List (List Nat)) (row : View) : List (Nat × RState) × St :=
+  (listAt lists (newEff st (st.res sel)).2.1).foldl (rowStep (rowsKs st sel lists) (build row))
+    ([], { (newEff st (st.res sel)).2.2 with next := (rowsKs st sel lists).w.next })
+
+theorem build_forRows (sel : Expr) (lists : List (List Nat)) (row : View) (st : St) :
+    build (.forRows sel lists row) st =
+      (.rows (newEff st (st.res sel)).1 sel lists row (rowsKs st sel lists) (mkChain (rowsFold st sel lists row).1),
+       (rowsFold st sel lists row).2.spawn (newEff st (st.res sel)).1) := rfl
+
+theorem rebuild_scope (sid : Nat) (d : LDef) (kid : View) (m0 sid0 : Nat) (s0 : Bool) (inner : RState) (st : St) :
+    rebuild (.scope sid d kid) (.scope m0 sid0 s0 inner) st =
+      (.scope (newLocal (killAll st [m0]) sid d).1 sid d.isSig
+          (rebuild kid inner { (newLocal (killAll st [m0]) sid d).2 with
+            locals := (newLocal (killAll st [m0]) sid d).1 :: (newLocal (killAll st [m0]) sid d).2.locals }).1,
+       { (rebuild kid inner { (newLocal (killAll st [m0]) sid d).2 with
+            locals := (newLocal (killAll st [m0]) sid d).1 :: (newLocal (killAll st [m0]) sid d).2.locals }).2.1 with
+          locals := (newLocal (killAll st [m0]) sid d).2.locals },
+       (rebuild kid inner { (newLocal (killAll st [m0]) sid d).2 with
+            locals := (newLocal (killAll st [m0]) sid d).1 :: (newLocal (killAll st [m0]) sid d).2.locals }).2.2) := rfl
+
+theorem rowStep_book (ks : Keyed.KState) (b : St → RState × St) (hb : ∀ st, Book st (b st).2)
+    (acc : List (Nat × RState) × St) (k : Nat) : Book acc.2 (rowStep ks b acc k).2 := by
+  have h1 := alloc_book acc.2
+  have h2 : Book acc.2.alloc.2 { acc.2.alloc.2 with locals := [], key := (k : Int) } := Book.of_eq rfl rfl
+  have h3 := hb { acc.2.alloc.2 with locals := [], key := (k : Int) }
+  have h4 : Book (b { acc.2.alloc.2 with locals := [], key := (k : Int) }).2 (rowStep ks b acc k).2 :=
+    Book.of_eq rfl rfl
+  exact ((h1.trans h2).trans h3).trans h4
+
+theorem dropRow_book (items : RState) (st : St) (k : Nat) : Book st (dropRow items st k) := by
+  unfold dropRow
+  split
+  · exact dropState_book _ _
+  · exact Book.refl _
+
 theorem build_book : ∀ (v : View) (st : St), Book st (build v st).2 := by
   intro v
   induction v with
@@ -51,13 +124,13 @@ theorem build_book : ∀ (v : View) (st : St), Book st (build v st).2 := by
     intro st
     exact ((alloc_book st).trans (buildAttrs_book attrs _)).trans (ih _)
   | seq a b iha ihb => intro st; exact (iha st).trans (ihb _)
-  | dynText x => intro st; exact ((newEff_book st x).trans (alloc_book _)).trans (spawn_book _ _)
+  | dynText x => intro st; exact ((newEff_book st _).trans (alloc_book _)).trans (spawn_book _ _)
   | either c a b iha ihb =>
     intro st
     simp only [build]
     split
-    · exact ((newEff_book st c).trans (iha _)).trans (spawn_book _ _)
-    · exact ((newEff_book st c).trans (ihb _)).trans (spawn_book _ _)
+    · exact ((newEff_book st _).trans (iha _)).trans (spawn_book _ _)
+    · exact ((newEff_book st _).trans (ihb _)).trans (spawn_book _ _)
   | «show» c a b iha ihb =>
     intro st
     simp only [build]
@@ -66,7 +139,22 @@ theorem build_book : ∀ (v : View) (st : St), Book st (build v st).2 := by
     · exact (((addDef_book st _).trans (newEff_book _ _)).trans (ihb _)).trans (spawn_book _ _)
   | forKeyed sel lists =>
     intro st
-    exact ((newEff_book st sel).trans (buildFor_book _ _)).trans (spawn_book _ _)
+    exact ((newEff_book st _).trans (buildFor_book _ _)).trans (spawn_book _ _)
+  | scope sid d kid ih =>
+    intro st
+    rw [build_scope]
+    refine ((newLocal_book st sid d).trans ?_).trans (Book.of_eq rfl rfl)
+    exact (Book.of_eq rfl rfl : Book (newLocal st sid d).2 { (newLocal st sid d).2 with
+      locals := (newLocal st sid d).1 :: (newLocal st sid d).2.locals }).trans (ih _)
+  | forRows sel lists row ih =>
+    intro st
+    rw [build_forRows]
+    have h1 : Book st { (newEff st (st.res sel)).2.2 with next := (rowsKs st sel lists).w.next } :=
+      Book.of_eq rfl rfl
+    have h2 := foldl_book (rowStep (rowsKs st sel lists) (build row)) (rowStep_book _ _ ih)
+      (listAt lists (newEff st (st.res sel)).2.1)
+      ([], { (newEff st (st.res sel)).2.2 with next := (rowsKs st sel lists).w.next })
+    exact (h1.trans h2).trans (spawn_book _ _)
 
 theorem replace_book (v : View) (old : RState) (st : St) : Book st (replace v old st).2.1 :=
   (build_book v st).trans (dropState_book _ _)
@@ -129,10 +217,30 @@ theorem rebuild_book : ∀ (v : View) (old : RState) (st : St), Book st (rebuild
   | either c a b _ _ => intro old st; exact replace_book _ _ _
   | «show» c a b _ _ => intro old st; exact replace_book _ _ _
   | forKeyed sel lists => intro old st; exact replace_book _ _ _
+  | scope sid d kid ih =>
+    intro old st
+    cases old <;> try exact replace_book _ _ _
+    next m0 sid0 s0 inner =>
+      rw [rebuild_scope]
+      refine (((killAll_book st [m0]).trans (newLocal_book (killAll st [m0]) sid d)).trans ?_).trans (Book.of_eq rfl rfl)
+      exact (Book.of_eq rfl rfl : Book (newLocal (killAll st [m0]) sid d).2
+        { (newLocal (killAll st [m0]) sid d).2 with
+          locals := (newLocal (killAll st [m0]) sid d).1 :: (newLocal (killAll st [m0]) sid d).2.locals }).trans (ih _ _)
+  | forRows sel lists row _ => intro old st; exact replace_book _ _ _
 
 
 theorem rerunFor_book (st : St) (ks : Keyed.KState) (texts : List (Nat × Nat)) (keys : List Nat) :
     Book st (rerunFor st ks texts keys).2.2.1 := Book.of_eq rfl rfl
+
+theorem rerunRows_book (st : St) (row : View) (ks : Keyed.KState) (items : RState) (keys : List Nat) :
+    Book st (rerunRows st row ks items keys).2.2.1 := by
+  simp only [rerunRows]
+  generalize Keyed.rebuild _ keys = ks'
+  have h1 : Book st { st with next := ks'.w.next } := Book.of_eq rfl rfl
+  have h2 := foldl_book' (dropRow items) (dropRow_book items) ks'.w.log.unmounts { st with next := ks'.w.next }
+  have h3 := foldl_book (rowStep ks' (build row)) (rowStep_book _ _ (build_book row))
+    (ks'.w.log.builds.map (·.1)) ([], ks'.w.log.unmounts.foldl (dropRow items) { st with next := ks'.w.next })
+  exact (h1.trans h2).trans h3
 
 theorem rerunIn_book (e : Nat) (w : Int) : ∀ (t : RState) (st : St), Book st (rerunIn e w t st).2.1 := by
   intro t
@@ -164,6 +272,15 @@ theorem rerunIn_book (e : Nat) (w : Int) : ∀ (t : RState) (st : St), Book st (
     split
     · exact rerunFor_book st ks texts _
     · exact Book.refl st
+  | scope m sid isSig inner ih => intro st; simp only [rerunIn]; exact ih st
+  | rows e' sel lists row ks items ih =>
+    intro st
+    simp only [rerunIn]
+    split
+    · exact rerunRows_book st row ks items _
+    · exact ih st
+  | rowCons k r rest ihr ihrest => intro st; simp only [rerunIn]; exact (ihr st).trans (ihrest _)
+  | rowNil => intro st; exact Book.refl st
 
 theorem rerunZombies_book (e : Nat) (w : Int) : ∀ (zs : List (Nat × Option RState)) (st : St),
     Book st (rerunZombies e w zs st).2
